@@ -2,7 +2,7 @@ ENGINES = [
     {"name": "E1-crosshair", "path": "vlib/chx.py", "serves_properties": ["C13", "C18", "C20"],
      "kind_free_text": "CrossHair (z3) symbolic execution of harness conditions that call toasty's real functions; inductive cuts by stubbing recursive globals / the reducer; counterexamples replayed under plain CPython"},
 ]
-ENGINES.append({"name": "E2-symx-symnp", "path": "vlib/e2.py", "serves_properties": ["C02", "C14", "C15"],
+ENGINES.append({"name": "E2-symx-symnp", "path": "vlib/e2.py", "serves_properties": ["C02", "C08", "C14", "C15"],
      "kind_free_text": "own z3-backed proxy-object symbolic execution (vlib/symx.py) with a lazy symbolic numpy (vlib/symnp.py) patched into toasty's modules; claims proved per path; counterexamples and vacuity twins replayed with real numpy on the solver model's inputs"})
 NOTES = ("Solver-based checking of the real code. Exit 0 = all explored obligations held; inconclusive obligations are printed as INCONCLUSIVE and listed in evidence, never counted as held. "
          "Exit 2 = harness error. known_findings.json lists genuine defects (open / fixed).")
@@ -44,4 +44,11 @@ CHECKS["C14"] = dict(
     technique="z3 via own symbolic execution of the real TileMerger._get_min_max_of_children / Image.save / ImageLoader.load_path / Builder.cascade with symbolic recorded ranges and tile contents (inductive leaf / parent / root steps)",
     text="Inductive steps decided by z3: a leaf saved without explicit range records its finite nan-min/max (bounds every pixel, none for all-NaN); a parent records min/max of its children's recorded ranges for every presence pattern and every subset of children carrying a range (symbolic reals), and load_path hands the recorded values back; Builder.cascade copies the root's values to the ImageSet.",
     note="FITS header I/O = identity (astropy formatting outside), nanmin/nanmax modelled by defining facts, min/max builtins in toasty.merge replaced by branch-free equivalents, induction over levels on paper.",
+)
+
+CHECKS["C08"] = dict(
+    engine="E2-symx-symnp", ref="DESIGN.md §4.4",
+    technique="z3 via own symbolic execution of the real StudyTiling (constructor, sub-image, image_to_tile, count, generator, tile_image) with SYMBOLIC image width/height, sub-image rectangle, pixel and tile index; tile loops summarised by one arbitrary / witness iteration",
+    text="For all widths and heights up to 2^12 (quick) / 2^20 (thorough) — symbolic, not sampled — z3 shows: smallest power-of-two square >= 256, centred offsets, level count, image_to_tile, count formula = enumeration size; every image pixel's witness tile is enumerated and its rectangle contains the pixel at the reported slot; rectangles of distinct tiles are disjoint and lie inside tile and image; the tile written for an arbitrary populated position holds the image pixels at their display slots and undefined values elsewhere, for 7 mode/format combinations, both parities and sub-images.",
+    note="codecs = identity; int/range/min/max/progress_bar in toasty.study replaced by symbolic-aware equivalents; loop independence checked syntactically each run; sizes above the bound are outside the claim.",
 )
